@@ -8,7 +8,7 @@ from .models_imports import mk_enum
 from . import miner_money
 
 PROPERTY = 'C05'
-CRATES = ['fil_actors_runtime', 'fil_actor_miner', 'fil_actor_cron', 'fil_actor_power']
+CRATES = ['fil_actors_runtime', 'fil_actor_miner', 'fil_actor_cron', 'fil_actor_power', 'fil_actor_market']
 ENGINES = ['M', 'K']
 
 
@@ -279,5 +279,7 @@ def build(tier):
         O.append(Obligation('power.process_deferred_cron_events[events per epoch=%s]' % sh, run_power_tick(sh), props_power_tick,
                             descr='never fails; all due events removed; one callback per event of a claimed miner; failing miners lose their claim, nobody else',
                             bounds='window of %d epoch(s), events per epoch %s; claims map symbolic' % (len(sh), sh), max_paths=100000))
+    from . import market_batch
+    O += market_batch.build_for('C05', tier)
     O += miner_money.build_for('C05', tier)
     return O
